@@ -63,6 +63,16 @@ type clause struct {
 	bytecode bytecode
 }
 
+// is reports whether c and o are the same clause, i.e. one is a copy of the other.
+// Clauses that merely look alike (p(a). p(a).) are different clauses.
+func (c *clause) is(o *clause) bool {
+	if len(c.bytecode) > 0 && len(o.bytecode) > 0 {
+		// Copies of a compiled clause share the bytecode. No other clause does.
+		return &c.bytecode[0] == &o.bytecode[0]
+	}
+	return c.raw == o.raw
+}
+
 func compileClause(head Term, body Term, env *Env) (clause, error) {
 	var c clause
 	c.compileHead(head, env)
